@@ -76,7 +76,15 @@ pub fn check(sc: &Scenario, ex: &Exec, a: &Analysis) -> Vec<Violation> {
                 Some(t) if t <= rt + TAU => {} // inside the tolerance: either outcome
                 _ => {
                     // not complete by the deadline: 408 and closed by deadline + TAU
-                    if !is408 {
+                    // a peer that does not take the 408 before the disconnect timeout ends the
+                    // connection cannot receive it; like every deadline that one carries the
+                    // date-tick tolerance (it may fire up to TAU early)
+                    let gave_up_on_unwritable_peer = dt > 0
+                        && matches!(&ex.done, Some(Err(e)) if e.contains("shutdown timeout"))
+                        && ex.done_at_ms.map_or(false, |d| d + TAU >= rt + dt)
+                        && ex.io.writes.is_empty();
+                    if gave_up_on_unwritable_peer {
+                    } else if !is408 {
                         v.push(viol(P, "a", "slow-head-no-408", format!("the first head was not complete at the deadline ({rt} ms; complete at {:?}) but the first response is {:?}", head_complete_at, first.map(|r| r.status))));
                     } else {
                         let at = stamp_of_offset(ex, first.unwrap().start).unwrap_or(u64::MAX);
@@ -292,6 +300,53 @@ pub fn scenarios(_tier: &str) -> Vec<Scenario> {
             s.config.request_timeout_ms = rt;
             s.config.disconnect_timeout_ms = dt;
             s.segments = vec![Segment { when: When::At(100_000), from: 0, to: 1 }];
+            s.env.horizon_ms = 4000;
+            out.push(s);
+        }
+    }
+    // (a') timeouts shorter than the date tick, on connections accepted some time after the
+    // last tick: the cached clock lags, so a deadline computed from it may already lie in the
+    // past at the moment its timer is armed
+    for delay in [0u64, 250, 400] {
+        for dt in [0u64, 250] {
+            for (shape, first, later) in [("silent", 0usize, None), ("partial", 10, None), ("partial-late2000", 10, Some(2000u64))] {
+                let mut s = mk(format!("head:rt250/dt{dt}/accept+{delay}/{shape}"), vec![RequestSpec::new("GET", 0)], vec![ok()]);
+                s.config.request_timeout_ms = 250;
+                s.config.disconnect_timeout_ms = dt;
+                s.env.accept_delay_ms = delay;
+                let len = s.stream().bytes.len();
+                s.segments = if first == 0 { vec![Segment { when: When::At(100_000), from: 0, to: 1 }] } else { vec![Segment { when: When::Start, from: 0, to: first }] };
+                if let Some(t) = later {
+                    s.segments.push(Segment { when: When::At(t), from: first, to: len });
+                }
+                s.env.horizon_ms = 4000;
+                out.push(s);
+            }
+        }
+        // keep-alive shorter than the date tick
+        for second_at in [None, Some(2000u64)] {
+            let mut s = mk(format!("ka:Timeout(250)/dt0/rt0/accept+{delay}/second@{second_at:?}"), vec![RequestSpec::new("GET", 0), RequestSpec::new("GET", 1)], vec![ok(), ok()]);
+            s.config.keep_alive = Ka::Timeout(250);
+            s.env.accept_delay_ms = delay;
+            let st = s.stream();
+            let end0 = st.spans[0].2;
+            s.segments = vec![Segment { when: When::Start, from: 0, to: end0 }];
+            if let Some(t) = second_at {
+                s.segments.push(Segment { when: When::At(t), from: end0, to: st.bytes.len() });
+            }
+            s.env.horizon_ms = 4000;
+            out.push(s);
+        }
+        // disconnect timeout shorter than the date tick against a shutdown that never completes
+        for (n, conn_close) in [("after-close-request", true), ("after-ka-disabled", false)] {
+            let req = if conn_close { RequestSpec::new("GET", 0).conn("close") } else { RequestSpec::new("GET", 0) };
+            let mut s = mk(format!("shutdown:{n}/dt250/accept+{delay}"), vec![req], vec![ok()]);
+            s.config.disconnect_timeout_ms = 250;
+            if !conn_close {
+                s.config.keep_alive = Ka::Disabled;
+            }
+            s.env.accept_delay_ms = delay;
+            s.env.shutdown_never = true;
             s.env.horizon_ms = 4000;
             out.push(s);
         }
